@@ -73,6 +73,17 @@ func genArgMax(r *gen.R, validOnly bool) (mon.OpReq, Expect, bool) {
 	} else {
 		x = r.Tensor(dt, shape, gen.FillSmall, 50)
 	}
+	if dt.IsFloat() && r.Chance(0.2) { // infinities and the extreme finite values are ordered like any others
+		big := math.MaxFloat32
+		if dt == ref.F64 {
+			big = math.MaxFloat64
+		}
+		for i := range x.Bits {
+			if r.Chance(0.3) {
+				x.Bits[i] = ref.EncF(dt, r.PickFloat(math.Inf(1), math.Inf(-1), big, -big, 0, big, math.Inf(1)))
+			}
+		}
+	}
 	if presetOperand != nil {
 		x, shape, dt = presetOperand, presetOperand.Shape, presetOperand.DT
 	}
@@ -429,4 +440,65 @@ func c09Structural(c *Ctx, req mon.OpReq, got *ref.T) {
 	}
 }
 
-func c09Known(req mon.OpReq, exp Expect, o mon.Outcome, v Verdict) string { return "" }
+// c09Known recognises the recorded defect "ArgMax prefers a later +Inf over a +Inf at the
+// first position of the slice" (gorgonia's argmax returns at the first +Inf it meets after
+// position 0, so [+Inf 1 +Inf] gives 2): the observed indices must be exactly what that
+// scan gives for every slice, and the input must hold +Inf.
+func c09Known(req mon.OpReq, exp Expect, o mon.Outcome, v Verdict) string {
+	if req.Op != "ArgMax" || o.Kind != mon.Value || len(o.Vals) != 1 || o.Vals[0] == nil || len(req.Inputs) != 1 {
+		return ""
+	}
+	x := req.Inputs[0]
+	if !x.DT.IsFloat() || x.Rank() == 0 {
+		return ""
+	}
+	axis := 0
+	for _, a := range req.Attrs {
+		if a.Name == "axis" {
+			axis = int(a.I)
+		}
+	}
+	ax, ok := ref.NormAxis(axis, x.Rank())
+	if !ok {
+		return ""
+	}
+	outer, n, inner := 1, x.Shape[ax], 1
+	for _, d := range x.Shape[:ax] {
+		outer *= d
+	}
+	for _, d := range x.Shape[ax+1:] {
+		inner *= d
+	}
+	got := o.Vals[0]
+	if len(got.Bits) != outer*inner {
+		return ""
+	}
+	sawInf := false
+	for ou := 0; ou < outer; ou++ {
+		for in := 0; in < inner; in++ {
+			best, f := 0, x.F((ou*n)*inner+in)
+			for k := 1; k < n; k++ {
+				val := x.F((ou*n+k)*inner + in)
+				if val != val || math.IsInf(val, 1) {
+					best = k
+					break
+				}
+				if val > f {
+					best, f = k, val
+				}
+			}
+			if int64(got.Bits[ou*inner+in]) != int64(best) {
+				return ""
+			}
+		}
+	}
+	for i := range x.Bits {
+		if math.IsInf(x.F(i), 1) {
+			sawInf = true
+		}
+	}
+	if !sawInf {
+		return ""
+	}
+	return "ArgMax:later-infinity-preferred-over-infinity-at-the-first-position(gorgonia)"
+}
